@@ -83,6 +83,8 @@ type checker struct {
 	serNamed *types.Named
 	repo     reporter
 	ctl      *ctlRep
+	// the instructions of a save function that put the bytes into the file (or hand them to the writing helper)
+	saveActs map[*ssa.Function][]ssa.Instruction
 }
 
 func (k *checker) rep(pos token.Pos) reporter {
@@ -151,6 +153,9 @@ func run(c *props.Ctx) {
 	k.persist6()
 	k.persist7()
 	k.save1()
+	k.save3()
+	k.persist8()
+	k.persist9(pairs)
 
 	if len(c.P.Controls) > 0 {
 		k.finishControls()
@@ -168,6 +173,10 @@ func run(c *props.Ctx) {
 	c.R.Floor("PERSIST-6", 1)
 	c.R.Floor("PERSIST-7", 5)
 	c.R.Floor("SAVE-1", 1)
+	c.R.Floor("PERSIST-8", 3)
+	c.R.Floor("PERSIST-9", 2)
+	c.R.Floor("SAVE-2", 1)
+	c.R.Floor("SAVE-3", 1)
 }
 
 var _ = ob.Holds
